@@ -114,7 +114,9 @@ let blackbox (s : sc) =
        | Some r ->
          if kind = "ok" && p < 0 then oracle "own_response" (Printf.sprintf "caller %d got an undecodable payload" c)
          else if not (obs_identity (nat (try Hashtbl.find expect c with Not_found -> c)) r) then
-           oracle "own_response" (Printf.sprintf "caller %d received the response of request %d" c p));
+           oracle "own_response" (let e = (try Hashtbl.find expect c with Not_found -> c) in
+             if e = c then Printf.sprintf "caller %d received the response of request %d" c p
+             else Printf.sprintf "caller %d (command fingerprint %d) received the response to a different command (fingerprint %d): its request shared a flight with an unequal request" c e p));
       (* an error is the call's OWN error: "context canceled" only if its own context was cancelled *)
       if kind = "ctx" && not (Hashtbl.mem cancels c) then
         oracle "own_error" (Printf.sprintf "caller %d returned `context canceled` although its own context was never cancelled" c);
